@@ -196,6 +196,9 @@ func compareItem(i int, it HistItem, got, want ItemResult) *Violation {
 func init() {
 	extraProps["C19"] = func(w *Worker, seed uint64, checks int) ([]string, string) {
 		return rapidRound(seed, 12, func(rt *rapid.T) {
+			if w.expired() {
+				return
+			}
 			rec := newRecorder(rt)
 			items := DrawHistory(rec)
 			o := w.Out
